@@ -41,6 +41,33 @@ example : (allPids (.node 1 [.node 2 [.node 4 [.node 7 []], .node 5 []], .node 3
 example : killList (.node 1 [.node 2 [.node 4 [.node 7 []], .node 5 []], .node 3 [.node 6 []]]) true
     = [1, 2, 3, 4, 5, 7, 6] := by decide
 
+/-! ### descendants that left the process group or the session -/
+
+/-- walking the parent links reaches every process of the tree, whatever groups or sessions
+its members moved to -/
+theorem c16_collect_ignores_groups (t : GTree) (p : Nat) :
+    p ∈ killList t.forget true ↔ p ∈ allPids t.forget :=
+  c16_collect_mem t.forget p
+
+/-- a single process-group query does not: a descendant that leads a group of its own
+(`setsid`, `start_new_session`) and everything below it are missed -/
+theorem c16_group_query_full_fails :
+    ¬ (∀ (t : GTree) (p : Nat), p ∈ allPids t.forget → p ∈ killListByGroup t) := by
+  intro h
+  have := h (.node 1 true [.node 2 false [], .node 3 true [.node 4 false []]]) 4
+    (by simp [GTree.forget, forgetList, allPids, allPidsList])
+  simp [killListByGroup, groupBelow, groupBelowList] at this
+
+/-- what the group query does reach: nothing outside the tree -/
+theorem c16_group_query_sound (t : GTree) (p : Nat) (h : p ∈ killListByGroup t) : p ∈ allPids t.forget := by
+  cases t with
+  | node q l cs =>
+    simp only [killListByGroup, List.mem_cons, groupBelow] at h
+    simp only [GTree.forget, allPids, List.mem_cons]
+    rcases h with h | h
+    · exact Or.inl h
+    · exact Or.inr (groupBelowList_sub cs p h)
+
 /-! ### the kill channel with denoise: `sudo -n <denoise> --json kill <pid>` -/
 
 /-- with `uses_sudo` the pids handed to `sudo … kill`, one call each and in this order, are
